@@ -260,6 +260,40 @@ func randomTemplate(r *hx.Rng, c *catalogue, url string) (*tinkpb.KeyTemplate, k
 	return t1, p
 }
 
+// rawTemplate is a parseable template that has NOT been through the implementation's own
+// serializer: the implementation must get every field of it back from its parameters object.
+// For the streaming key formats the ciphertext key size and the derived key size are
+// pushed apart, since a serializer that confuses the two is invisible when they agree.
+func rawTemplate(r *hx.Rng, c *catalogue, url string) *tinkpb.KeyTemplate {
+	bs := c.bases[url]
+	if len(bs) == 0 {
+		return nil
+	}
+	ft := formatTypeOfURL(url)
+	for try := 0; try < 30; try++ {
+		b := proto.Clone(hx.PickS(r, bs)).(*tinkpb.KeyTemplate)
+		m := ft.New()
+		if err := proto.Unmarshal(b.Value, m.Interface()); err != nil {
+			continue
+		}
+		if try < 20 && r.Chance(60) {
+			randomizeFormat(r, m, 25, c)
+		}
+		if km, kf := fieldByPath(m, "key_size"); km != nil && try < 25 {
+			if dm, df := fieldByPath(m, "params.derived_key_size"); dm != nil {
+				d := uint32(hx.PickS(r, []int{16, 32}))
+				dm.Set(df, protoreflect.ValueOfUint32(d))
+				km.Set(kf, protoreflect.ValueOfUint32(d+uint32(hx.PickS(r, []int{0, 1, 8, 16, 32}))))
+			}
+		}
+		b.Value = detMarshal(m.Interface())
+		if _, err := protoserialization.ParseParameters(b); err == nil {
+			return b
+		}
+	}
+	return nil
+}
+
 // ---- keys ---------------------------------------------------------------------
 
 func isRSAURL(url string) bool { return strings.Contains(url, "Rsa") }
@@ -867,6 +901,9 @@ func gen(r *hx.Rng, n int, tier string) []string {
 				continue
 			}
 			add(paramsLine("gen", t))
+			if b := rawTemplate(r, c, url); b != nil {
+				add(paramsLine("raw", b))
+			}
 			if r.Chance(40) && !strings.Contains(url, "PrfBasedDeriver") {
 				t2 := proto.Clone(t).(*tinkpb.KeyTemplate)
 				t2.OutputPrefixType = tinkpb.OutputPrefixType(r.Intn(6))
